@@ -479,6 +479,11 @@ func (it *Interp) lookupKnown(c *Term) (bool, bool) {
 				}
 				return it.lookupKnown(c.Args[2])
 			}
+			a, aok := it.lookupKnown(c.Args[1])
+			b, bok := it.lookupKnown(c.Args[2])
+			if aok && bok && a == b {
+				return a, true
+			}
 		}
 	}
 	return false, false
